@@ -180,8 +180,7 @@ func (x *g) genMethod(sv *spec.Service, j int, used map[string]bool) {
 		case 0:
 			if x.o.Runtime {
 				// a dedicated type: sharing a type between errors and payloads/results is a listed C01 finding
-				ut := x.genObjectType("type")
-				ut.Name = x.typeName(strings.Title(strings.ReplaceAll(e.Name, "_", "")) + "Err")
+				ut := x.genObjectTypeNamed("type", strings.Title(strings.ReplaceAll(e.Name, "_", ""))+"Err")
 				e.Type = &spec.Type{Kind: spec.Ref, Ref: ut.Name}
 				x.s.AddFeature("error-usertype")
 			} else if ts := x.plainObjectTypes(); ts != nil {
